@@ -967,6 +967,11 @@ func init() {
 			ruleHistoryIndependence(c, w, tb, ef, "R15.4", w.Funcs(OtpPath, "NewRawSuite", "NewSuite", "ListSuites", "IsKnownSuite", "SuiteConfigFromRaws", "MustRawSuite")...)
 			// the REST face of the registry: list, description and the raw-suite text handed to the library
 			checkRESTEndpoints(c, w, tb, ef, "R15.REST", "/ocra/suite", "/ocra/suites")
+			// a configuration reported or sent in numeric form means the documented format
+			ruleWireEnums(c, w, "R15.5")
+			c.Floor("R15.5", 11)
+			ruleConstructorIdentity(c, w, tb, "R15.6")
+			c.Floor("R15.6", 1)
 			c.Floor("R15.1", 40)
 			c.Floor("R15.2", 6)
 			c.Floor("R15.3", 10)
